@@ -286,6 +286,8 @@ def _summed(sp, v, dims):
 class Space:
     """declares the atoms of one obligation, builds the exact field, hands out generic arrays"""
 
+    fe_class = None      # class of the fields handed out (set below to the hand-written contract GFe; contract modules install the class re-assembled from FeArray's own source)
+
     def __init__(self, decls: dict, scalars=(), nspare=4, witness_seed=1):
         self.decls = {k: _check_shape(tuple(v)) for k, v in decls.items()}
         names, self._deps, self._index = [], {}, {}
@@ -345,7 +347,7 @@ class Space:
         data = _np.empty(_conc(shape), dtype=object)
         for idx in itertools.product(*[range(s) for s in _conc(shape)]):
             data[idx] = self.ctx.sym(self._index[(name, idx)])
-        return (GFe if fe else GA)(self, shape, data)
+        return (self.fe_class if fe else GA)(self, shape, data)
 
     def fe(self, name) -> "GFe":
         return self.arr(name, fe=True)
@@ -354,7 +356,7 @@ class Space:
         shape = _check_shape(tuple(shape))
         data = _np.empty(_conc(shape), dtype=object)
         data[...] = self.const(value)
-        return (GFe if fe else GA)(self, shape, data)
+        return (self.fe_class if fe else GA)(self, shape, data)
 
     def lift(self, a) -> "GA":
         """numbers / nested lists / real ndarrays (exact integers or floats read exactly) / X -> GA"""
@@ -466,8 +468,8 @@ class GA:
         return f"{type(self).__name__}{self.shape}"
 
     def _new(self, shape, data, fe=None):
-        cls = type(self) if fe is None else (GFe if fe else GA)
-        if cls is GFe and len(shape) < 2:
+        cls = type(self) if fe is None else (self.sp.fe_class if fe else GA)
+        if getattr(cls, "fe", False) and len(shape) < 2:
             cls = GA
         return cls(self.sp, shape, data)
 
@@ -479,8 +481,10 @@ class GA:
             return self._new(self.shape, self.data)
         if cls is GA or cls is _np.ndarray:
             return GA(self.sp, self.shape, self.data)
-        if cls is GFe or getattr(cls, "__name__", "") == "FeArray":
-            return GFe(self.sp, self.shape, self.data)
+        if isinstance(cls, type) and issubclass(cls, GA):
+            return cls(self.sp, self.shape, self.data)
+        if getattr(cls, "__name__", "") == "FeArray":
+            return self.sp.fe_class(self.sp, self.shape, self.data)
         raise Unsupported(f"view as {cls}")
 
     def ravel(self, *a, **k):
@@ -599,7 +603,7 @@ class GA:
         return self, self.sp.lift(o)
 
     def _bin(self, o, op, reflected=False):
-        if isinstance(o, GFe) and not isinstance(self, GFe):
+        if getattr(o, 'fe', False) and not getattr(self, 'fe', False):
             return o._bin(self, op, not reflected)
         a, b = self._operands(o)
         if reflected:
@@ -650,6 +654,9 @@ class GA:
         return self._new(self.shape, _np.vectorize(abs, otypes=[object])(self.data) if self.data.size else self.data)
 
     def __matmul__(self, o):
+        if getattr(o, "fe", False) and not getattr(self, "fe", False):
+            # plain array @ field: numpy hands the product to the field (FeArray.__array_ufunc__ routes np.matmul to __rmatmul__)
+            return o.__rmatmul__(self)
         return matmul(self, self.sp.lift(o))
 
     def __rmatmul__(self, o):
@@ -690,7 +697,7 @@ class GA:
         axes = tuple(int(a) % self.ndim for a in axes)
         if sorted(axes) != list(range(self.ndim)):
             raise ValueError("axes don't match array")
-        return self._new(tuple(self.shape[a] for a in axes), self.data.transpose(axes), fe=False if type(self) is GFe and axes[:2] != (0, 1) else None)
+        return self._new(tuple(self.shape[a] for a in axes), self.data.transpose(axes), fe=False if getattr(self, 'fe', False) and axes[:2] != (0, 1) else None)
 
     def swapaxes(self, a, b):
         ax = list(range(self.ndim))
@@ -717,7 +724,7 @@ class GA:
             raise ValueError(f"cannot reshape array of shape {self.shape} into shape {shape}")
         new = tuple(self.shape[:k]) + tuple(rest_new)
         fe = None
-        if type(self) is GFe and not (len(new) >= 2 and new[:2] == self.shape[:2]):
+        if getattr(self, 'fe', False) and not (len(new) >= 2 and new[:2] == self.shape[:2]):
             fe = False
         return self._new(new, self.data.reshape(_conc(new)), fe=fe)
 
@@ -749,8 +756,8 @@ def _reduce_sum(a: GA, axis, keepdims=False, keep_fe=None):
         z[()] = data
         data = z
     shape = tuple((1 if k in axes else d) for k, d in enumerate(a.shape)) if keepdims else tuple(d for k, d in enumerate(a.shape) if k not in axes)
-    fe = isinstance(a, GFe) and all(k >= 2 for k in axes) and len(shape) >= 2
-    return (GFe if fe else GA)(a.sp, shape, data)
+    fe = getattr(a, "fe", False) and all(k >= 2 for k in axes) and len(shape) >= 2
+    return (type(a) if fe else GA)(a.sp, shape, data)
 
 
 def matmul(a: GA, b: GA):
@@ -849,7 +856,7 @@ class GFe(GA):
 
     @staticmethod
     def _wrap(r):
-        return GFe(r.sp, r.shape, r.data) if r.ndim >= 2 else r
+        return r.sp.fe_class(r.sp, r.shape, r.data) if r.ndim >= 2 else r
 
     def __matmul__(self, o):
         n1, n2 = self._ndim, self._rank_of(o)
@@ -910,6 +917,35 @@ class GFe(GA):
         return self._fe_einsum(f"{idx1},{idx2}->{end}", self.sp.lift(o))
 
 
+class GFeBase(GA):
+    """base of the class re-assembled from the SOURCE of FeArray (contracts/ops.py: every method of the real class except the numpy protocol hooks): only what the ndarray machinery
+    does for the real class is modelled here -- construction, and elementwise operators, which go through the real `FeArray._align` and then broadcast the plain way"""
+    fe = True
+
+    def __init__(self, sp, shape=None, data=None, broadcastFeArrays=False):
+        if isinstance(sp, GA):          # FeArray(array, broadcastFeArrays=...): the contract of FeArray.__new__
+            a = sp[None, None] if (broadcastFeArrays or shape is True) else sp
+            sp, shape, data = a.sp, a.shape, a.data
+        super().__init__(sp, shape, data)
+        if len(self.shape) < 2:
+            raise ValueError("The input array must have at least 2 dimensions.")
+
+    def _bin(self, o, op, reflected=False):
+        o = self.sp.lift(o)
+        a, b = (o, self) if reflected else (self, o)
+        a, b = type(self)._align((a, b))                 # the real alignment rule
+        a, b = self.sp.lift(a), self.sp.lift(b)
+        shape = _bshape(a.shape, b.shape)
+        # __array_ufunc__: "broadcasting against a FeArray always keeps the (Ne, nPg) axes": the result is a field
+        return type(self)(self.sp, shape, _OPS[op](a.data, b.data))
+
+    def __matmul__(self, o):
+        raise NotImplementedError       # replaced by the method of the real class
+
+    def __rmatmul__(self, o):
+        raise NotImplementedError
+
+
 def _bto(a: GA, shape):
     """np.broadcast_to"""
     shape = tuple(shape)
@@ -917,7 +953,7 @@ def _bto(a: GA, shape):
     if tuple(map(repr, got)) != tuple(map(repr, shape)):
         raise ShapeError(f"cannot broadcast {a.shape} to {shape}")
     data = _np.broadcast_to(a.data, _conc(shape)).copy()
-    return type(a)(a.sp, shape, data) if len(shape) >= 2 or type(a) is GA else GA(a.sp, shape, data)
+    return type(a)(a.sp, shape, data) if len(shape) >= 2 or not getattr(a, "fe", False) else GA(a.sp, shape, data)
 
 
 # ---------------------------------------------------------------------------------------------- einsum
@@ -1091,13 +1127,13 @@ class NP:
         a, b = self.sp.lift(a), self.sp.lift(b)
         shape = _bshape(a.shape, b.shape)
         if where is True:
-            return type(b)(self.sp, shape, a.data / b.data) if isinstance(b, GFe) and len(shape) >= 2 else GA(self.sp, shape, a.data / b.data)
+            return type(b)(self.sp, shape, a.data / b.data) if getattr(b, 'fe', False) and len(shape) >= 2 else GA(self.sp, shape, a.data / b.data)
         w = self.sp.lift(where)
         o = self.sp.lift(out) if out is not None else self.sp.full(shape, 0)
         shape = _bshape(shape, w.shape, o.shape)
         pick = _np.frompyfunc(lambda x, y, m, z: (x / y) if m else z, 4, 1)
         data = pick(*_np.broadcast_arrays(a.data, b.data, w.data, o.data)).astype(object)
-        cls = GFe if (isinstance(b, GFe) or isinstance(o, GFe)) and len(shape) >= 2 else GA
+        cls = self.sp.fe_class if (getattr(b, 'fe', False) or getattr(o, 'fe', False)) and len(shape) >= 2 else GA
         return cls(self.sp, shape, _np.array(data, dtype=object).reshape(_conc(shape)))
 
     def where(self, cond, a, b):
@@ -1105,7 +1141,7 @@ class NP:
         shape = _bshape(c.shape, a.shape, b.shape)
         pick = _np.frompyfunc(lambda m, x, y: x if m else y, 3, 1)
         data = pick(*_np.broadcast_arrays(c.data, a.data, b.data)).astype(object)
-        cls = GFe if any(isinstance(v, GFe) for v in (c, a, b)) and len(shape) >= 2 else GA
+        cls = self.sp.fe_class if any(getattr(v, 'fe', False) for v in (c, a, b)) and len(shape) >= 2 else GA
         return cls(self.sp, shape, _np.array(data, dtype=object).reshape(_conc(shape)))
 
     def sign(self, a):
@@ -1125,9 +1161,9 @@ class NP:
     def einsum(self, subs, *ops, **k):
         r = einsum(subs, *ops)
         # FeArray.__array_function__ (contract): the result is a field exactly when it comes out on the (Ne, nPg) axes of the field operands
-        fes = [o for o in ops if isinstance(o, GFe)]
+        fes = [o for o in ops if getattr(o, "fe", False)]
         if fes and r.ndim >= 2 and all(r.shape[:2] == _bshape(*[f.shape[:2] for f in fes]) for _ in (0,)):
-            return GFe(r.sp, r.shape, r.data)
+            return self.sp.fe_class(r.sp, r.shape, r.data)
         return r
 
     def matmul(self, a, b):
@@ -1189,3 +1225,6 @@ def first_difference(got, want):
         if not (a == b):
             return f"entry {idx}: {a!r}  expected  {b!r}"
     return None
+
+
+Space.fe_class = GFe
